@@ -186,6 +186,15 @@ def run_check(pid, cfg, tier, seed, work, t0):
             continue
         if reported >= 4:
             continue
+        if cfg.get("crash_lines"):
+            # keep the workload and only the failing image (as a direct `crashimg` op)
+            fail = lines[-1] if lines else ""
+            body = [l for l in lines[:-1] if not l.startswith("crashnext")]
+            if fail.startswith("crashnext -> point="):
+                res = fail.split(" -> ", 1)[1]
+                kv = dict(t.split("=", 1) for t in res.split(" ") if "=" in t)
+                body.append("crashimg point=%s tear=%s img=%s ->" % (kv.get("point", "?"), kv.get("tear", "none"), kv.get("img", "")))
+                lines = body
         req = cfg.get("requires_ops")
         if req:
             # attribution: does the failure need one of this property's operations to manifest?
@@ -230,6 +239,14 @@ def run_check(pid, cfg, tier, seed, work, t0):
         violations.append((path, what, False))
 
     # ---- 6. evidence + output
+    # one line per listed finding
+    agg = {}
+    for k in known_lines:
+        m = re.match(r"(KNOWN-FINDING: property=\S+ .*?)( \((\d+) traces\))?$", k)
+        base = m.group(1) if m else k
+        n = int(m.group(3)) if m and m.group(3) else 1
+        agg[base] = agg.get(base, 0) + n
+    known_lines = ["%s (%d failing cases this run)" % (b, n) for b, n in agg.items()]
     for k in known_lines:
         print(k)
     coverage.update({
